@@ -329,6 +329,21 @@ def r3_linker_export(R) -> None:
     R.check(len(owners) == 2 and (f.fi.params() + ['linker'])[0] in owners, q, f'owners:{owners}', 'one frame for the linker, one per submodel', f'to_dataframe is called on {owners}', where=f.fi.where)
     for c in calls:
         _flags_forwarded(R, q, c, f'{f.fi.module.relpath}:{c.lineno}', f.fi.node)
+    # the linker's own frame and the submodels' frames share one dictionary, keyed by linker.name and by the submodel ids: a
+    # submodel whose id equals the linker's name (default '_') would replace the linker's frame - unless that is ruled out,
+    # at construction or here
+    li = Fn(R, 'fsic.core.linkers.BaseLinker.__init__')
+    ps = li.fi.params()
+    distinct = False
+    for fn_ in (li, f):
+        for r_ in fn_.raises():
+            for (a_, tr_, _t) in fn_.guard_atoms(r_.id):
+                ta = text(a_)
+                if tr_ and isinstance(a_, ast.Compare) and len(a_.ops) == 1 and isinstance(a_.ops[0], ast.In) and 'name' in text(a_.left) and 'submodels' in text(a_.comparators[0]):
+                    distinct = True
+    R.check(distinct, q, 'linker-name-distinct', "the linker's own table cannot be replaced by a submodel's: a submodel id equal to the linker's name is rejected",
+            "the frames of the linker and of its submodels go into one dictionary keyed by `linker.name` and by the submodel ids, and nothing keeps the two apart: "
+            "BaseLinker({'A': m1, '_': m2}).to_dataframes() (default name '_') returns 2 tables for 3 objects - the submodel's table replaces the linker's", where=f.fi.where)
     # keys: the linker's frame under linker.name, each submodel's under its id
     lk = (f.fi.params() + ['linker'])[0]
     key_ok = {'linker': False, 'submodels': False}
